@@ -419,30 +419,57 @@ func e9StaleCase(seed uint64, n int, variant string) Case {
 			nd.refilt(kit.TNull()) // the node is now parked at "refiltering..."
 			nd.filter = kit.TNull()
 			var win []evrec
+			// the parent states of the window: a read at readiness may legitimately show any
+			// of them (where the node syncs relative to the parent's changes is a matter of
+			// schedule: on the unchanged tree the node is parked at its "refiltering..." log
+			// point while the parent moves on, a differently structured library may sync at
+			// once).  The update of n0/b makes the D7 state {b@6, c@3} differ from all of them.
+			states := []kit.Snap{{"n0/a": "1", "n0/b": "2", "n0/c": "3"}}
+			cur := states[0].Clone()
 			for _, step := range []struct {
-				typ kcache.EventType
-				rv  string
-			}{{kcacheDelete, "4"}, {kcacheUpdate, "5"}} {
-				evts, _ := g.apply(step.typ, kit.Pod("n0", "a", step.rv, map[string]string{"l": "x"}))
+				typ  kcache.EventType
+				name string
+				rv   string
+			}{{kcacheDelete, "a", "4"}, {kcacheUpdate, "a", "5"}, {kcacheUpdate, "b", "6"}} {
+				evts, _ := g.apply(step.typ, kit.Pod("n0", step.name, step.rv, map[string]string{"l": "x"}))
 				for _, e := range evts {
 					win = append(win, evrec{Type: e.Type(), Key: kit.Key(e.Resource()), RV: e.Resource().GetResourceVersion()})
 				}
+				if step.typ == kcacheDelete {
+					delete(cur, "n0/"+step.name)
+				} else {
+					cur["n0/"+step.name] = step.rv
+				}
+				states = append(states, cur.Clone())
 			}
 			g.barrier()
 			fired, snap, _ := w.get()
 			close(w.stop)
 			<-w.done
-			want := kit.Snap{"n0/a": "5", "n0/b": "2", "n0/c": "3"}
+			want := states[len(states)-1]
 			r.Add("directed-stale-inflight-attempts", 1)
+			match, explained := false, false
+			for _, st := range states {
+				if snap.Equal(st) {
+					match = true
+				}
+			}
+			if !match {
+				for _, st := range states {
+					if staleInflightExplains(st, snap, win) {
+						explained = true
+					}
+				}
+			}
 			switch {
 			case !fired:
 				r.V("C08", "ready-state-wrong", "directed case: node with ready parent and supplied filter not ready")
-			case snap.Equal(want):
-			case staleInflightExplains(want, snap, win):
-				r.V("C08", "stale-inflight-event-after-sync", "directed case (%s below a clone, attempt %d): parked inside Refilter while the parent deleted n0/a@4 and re-created it @5; the read made when Ready() fired returned %v instead of %v: the buffered OLDER delete was applied after the sync", variant, attempt, snap, want)
+			case match:
+			case explained:
+				r.V("C08", "stale-inflight-event-after-sync", "directed case (%s below a clone, attempt %d): parked inside Refilter while the parent deleted n0/a@4, re-created it @5 and updated n0/b@6; the read made when Ready() fired returned %v, which is none of the parent's states %v: a buffered OLDER event was applied after the sync", variant, attempt, snap, states)
 				r.Add("stale-inflight-observations", 1)
 			default:
-				r.V("C08", "read-at-readiness-not-synced", "directed case: read at readiness returned %v, expected %v", snap, want)
+				r.V("C08", "read-at-readiness-not-synced", "directed case: read at readiness returned %v, none of the parent's states %v in the window", snap, states)
 			}
 			final, _ := cacheSnap(nd.cc.Cache())
 			if !final.Equal(want) {
